@@ -67,6 +67,7 @@ type c05Case struct {
 	Files []c05File     `json:"files"` // [0] is the page
 	Data  map[string]TV `json:"data,omitempty"`
 	Wrap  *c05Wrap      `json:"wrap,omitempty"` // wrap part (c05_wrap.go)
+	PN    *c05PN        `json:"pn,omitempty"`   // propnames part (c05_pnames.go)
 }
 
 type c05 struct{}
@@ -92,6 +93,7 @@ func (p *c05) Rule() string {
 	return "grid (exhaustive): one include, two props pa,pb, each in every state of {omitted, static, {{ }}, bound truthy, bound falsy} x {component front-matter has the key or not} x {includer has the variable or not} x {listed in :required or not}, x placement {page level, inside a component (includer variable is itself a prop), inside v-for} x syntax {<template include>, shorthand} x entry {Template+WithComponents, Vue+RegisterComponent}; " +
 		"types (exhaustive): every JSON-marshalable typed value of the catalogue (JSON-like kinds, all numeric widths, typed slices/maps/structs/pointers, every falsy zero) bound by :p=\"v\", v-bind:p=\"v\", :p=\"o.k\", with/without a colliding includer variable, observed through | json and | type in the component and one level further down (:pb=\"pa\"); " +
 		"multi (exhaustive): the same component file included 1-3 times in a row with every combination of {omitted, static, {{ }}, bound} for pa x front-matter x includer variable x :required; " +
+		"propnames: 22 prop names that coincide with words the engine uses elsewhere (required, require, content, layout, slot, name, key, is, ref, ...) x {static, {{ }}, bound, shorthand static, shorthand bound} x {listed in the component's :required or not} x {includer has a variable of that name or not} x {page level, inside v-for}: the prop arrives, satisfies :required, shadows the includer's variable inside and is gone after; " +
 		"names: WithComponents() mapping table for nested directories, shorthand at page level and inside a component; " +
 		"tree (seeded random, 40 000 quick / 320 000 thorough): include trees of depth <= 3 and fan-out <= 3 over the name universe {pa,pb,pc,pd}, random prop forms, front-matter subsets, :required subsets in 5 spellings (csv, spaces, :require, split over :required+:require, repeated :require), component files reused by several includes, includes inside v-for, shorthand at any level, typed page data; " +
 		"non-trivial = a case whose render reached at least one component instance or was decided by the :required predicate; distinct by the full text of the files and data"
@@ -100,11 +102,13 @@ func (p *c05) Rule() string {
 func (p *c05) nTree(ctx core.Ctx) int { return ctx.Pick(40000, 320000) }
 
 func (p *c05) Plan(ctx core.Ctx) int {
-	return c05NGrid + c05NTypes() + c05NMulti + c05NNames() + p.nTree(ctx) + c05NWrap()
+	return c05NGrid + c05NTypes() + c05NMulti + c05NNames() + p.nTree(ctx) + c05NWrap() + c05NPNames()
 }
 
 func (p *c05) Gen(ctx core.Ctx, i int) any {
-	if n := c05NGrid + c05NTypes() + c05NMulti + c05NNames() + p.nTree(ctx); i >= n {
+	if n := c05NGrid + c05NTypes() + c05NMulti + c05NNames() + p.nTree(ctx); i >= n+c05NWrap() {
+		return c05GenPNames(i - n - c05NWrap())
+	} else if i >= n {
 		return c05BuildWrap(i - n)
 	}
 	if i < c05NGrid {
@@ -720,6 +724,10 @@ func (p *c05) Exec(ctx core.Ctx, cc any) core.Obs {
 	var o core.Obs
 	if c.Part == "wrap" && c.Wrap != nil {
 		c05ExecWrap(c, &o)
+		return o
+	}
+	if c.Part == "propnames" && c.PN != nil {
+		c05ExecPNames(c, &o)
 		return o
 	}
 	if len(c.Files) == 0 {
